@@ -41,7 +41,7 @@ theorem shownC_congr {c c' : Client} (h : c'.shown = c.shown) (id : Nat) : shown
 
 theorem SenderStep.toCStepOK {accts : List Acct} {groups : List (Nat × List Acct)} {L : List (Acct × Node)} {V : View} {x : Acct}
     {cons rest : List Stanza} {c' : Client} {out : List Stanza} {k : Nat}
-    (h : TV accts groups L V) (hs : SenderStep accts groups L V x cons rest c' out k) :
+    (h : TV ex accts groups L V) (hs : SenderStep accts groups L V x cons rest c' out k) :
     CStepOK accts groups L V x cons rest c' out k := by
   have hcg := (h.clients x).mono hs.hk
   have hz1 : ∀ id, sumMap (downTok id) cons = 0 := fun id => sumMap_eq_zero (fun st hst => (hs.cons_plain st hst id).1)
@@ -121,7 +121,7 @@ structure RecipStep (accts : List Acct) (groups : List (Nat × List Acct)) (L : 
 
 theorem RecipStep.toCStepOK {accts : List Acct} {groups : List (Nat × List Acct)} {L : List (Acct × Node)} {V : View} {x : Acct}
     {cons rest : List Stanza} {c' : Client} {out : List Stanza} {k : Nat}
-    (h : TV accts groups L V) (hs : RecipStep accts groups L V x cons rest c' out k) :
+    (h : TV ex accts groups L V) (hs : RecipStep accts groups L V x cons rest c' out k) :
     CStepOK accts groups L V x cons rest c' out k := by
   have hz1 : ∀ id r, sumMap (retryDownTok id r) cons = 0 := fun id r => sumMap_eq_zero (fun st hst => (hs.cons_plain st hst id r).1)
   have hz2 : ∀ id r, sumMap (rcptOut id r) cons = 0 := fun id r => sumMap_eq_zero (fun st hst => (hs.cons_plain st hst id r).2)
